@@ -21,13 +21,14 @@ Inductive opt :=
   | WithResourceIndicatorsRequired (r : string) (l : list string)
   | WithIssuerResponseParameter
   | WithPathPrefix (p : string)
-  | WithTokenLifetime (secs : Z).      (* the lifetime the harness's TokenOptionsFunc answers *)
+  | WithTokenLifetime (secs : Z)       (* the lifetime the harness's TokenOptionsFunc answers *)
+  | WithAuthorizationDetails (f : details_cmp) (t : string) (l : list string).   (* RFC 9396; f: the compare function installed *)
 
 Definition base_config (p : profile) : config :=
   mkConfig p [] [] [] [] false 0%Z 300%Z IssueNever false 0%Z
            false false "" [] false false 0%Z false false false false false
            false 0%Z false false false false false false false false false
-           false false false false false false false "" false [].
+           false false false false false false false "" false [] false [] CmpNone.
 
 (* appendIfNotIn: prepend the default unless present *)
 Definition append_if_not_in (l : list string) (x : string) : list string := if mem x l then l else x :: l.
@@ -82,6 +83,8 @@ Definition apply_opt (o : opt) (c : config) : config :=
   | WithIssuerResponseParameter => c <| cf_issuer_param := true |>
   | WithPathPrefix p => c <| cf_prefix := p |>
   | WithTokenLifetime s => c <| cf_token_lifetime := s |>
+  | WithAuthorizationDetails f t l =>
+      c <| cf_auth_details_enabled := true |> <| cf_details_cmp := f |> <| cf_auth_detail_types := append_if_not_in l t |>
   end.
 
 (* Provider.setDefaults *)
